@@ -16,6 +16,7 @@ import PV.Model.Resample
 import PV.Gen.Schema
 import PV.Model.JsonRep
 import PV.Model.Dobs
+import PV.Model.Cov
 
 open Lean PV PV.Wire
 
@@ -296,6 +297,13 @@ def opDobs (j : Json) : Except String Json := do
   let col := dobsColumn idl idl nums
   pure (obj [("kept", enc ((dobsImport idl col (0 : Float)).map (·.1)))])
 
+/-- op "cov": {"obs": [Obs], "dv": [x], "correlation": bool} -> {"m": [[x]]} -/
+def opCov (j : Json) : Except String Json := do
+  let obs : List (Obs Float) ← get j "obs"
+  let dv : List Float ← get j "dv"
+  let corr : Bool ← get j "correlation"
+  pure (obj [("m", enc (covarianceMatrix obs dv corr))])
+
 def dispatch (op : String) (j : Json) : Except String Json :=
   match op with
   | "gamma" => opGamma false j
@@ -310,6 +318,7 @@ def dispatch (op : String) (j : Json) : Except String Json :=
   | "resample" => opResample j
   | "schema" => opSchema j
   | "dobs" => opDobs j
+  | "cov" => opCov j
   | "jsonrep" => opJsonRep j
   | "renumber" => opRenumber j
   | "mkobs" => opMkObs j
